@@ -68,9 +68,17 @@ def _is_mv(n: ast.AST) -> Optional[str]:
     return None
 
 
+class Bindings(dict):
+    """Metavariable bindings of a successful match.  Always truthy (also when the pattern has no metavariables), so
+    that `match(p1, n) or match(p2, n)` means what it says."""
+
+    def __bool__(self):
+        return True
+
+
 def match(p: ast.AST, n: ast.AST, b: Optional[Dict[str, ast.AST]] = None) -> Optional[Dict[str, ast.AST]]:
     """Structural match of pattern p against node n; returns bindings or None."""
-    b = {} if b is None else b
+    b = Bindings() if b is None else b
     return b if _m(p, n, b) else None
 
 
